@@ -358,14 +358,30 @@ TABLE.opaque_str_method = _opaque_str_method
 join_of = z3.Function("join_of", z3.StringSort(), Val, z3.StringSort())
 
 
+all_bytes = z3.Function("all_bytes", Val, z3.BoolSort())     # every element of the list is a bytes object
+all_str = z3.Function("all_str", Val, z3.BoolSort())
+
+
 def _str_join(ex, st, sep, args):
     """sep.join(xs): for a literal list of strings the exact concatenation; otherwise the opaque join_of(sep, xs)
-    with join_of(sep, []) == '' ; TypeError if an element is not a str"""
+    with join_of(sep, []) == '' ; TypeError if an element is not a str.  b''.join(xs) / ''.join(xs): bjoin_of(xs), the
+    concatenation, when all elements are of the separator's kind (all_bytes / all_str), TypeError otherwise"""
     from pyvc.trusted import LazySeq
     xs = args[0]
     if isinstance(xs, LazySeq):
         xs = xs.lst
     T.used("str.join", _str_join.__doc__.strip())
+    if ex.feasible(st, V.is_bytes(sep)) or (z3.is_true(z3.simplify(Val.s(sep) == sv(""))) and not
+                                             z3.is_int_value(z3.simplify(V.seq_len(z3.simplify(xs))))):
+        cat = bjoin_of(xs)
+        alts = [(z3.And(V.is_bytes(sep), z3.Length(Val.y(sep)) == 0, V.is_list(xs), all_bytes(xs)), ("val", V.VBytes(cat))),
+                (z3.And(V.is_bytes(sep), z3.Length(Val.y(sep)) == 0, V.is_list(xs), z3.Not(all_bytes(xs))), ("raise", TypeError)),
+                (z3.And(V.is_str(sep), z3.Length(Val.s(sep)) == 0, V.is_list(xs), all_str(xs)), ("val", V.VStr(cat))),
+                (z3.And(V.is_str(sep), z3.Length(Val.s(sep)) == 0, V.is_list(xs), z3.Not(all_str(xs))), ("raise", TypeError)),
+                (z3.Not(z3.And(z3.Or(z3.And(V.is_bytes(sep), z3.Length(Val.y(sep)) == 0),
+                                     z3.And(V.is_str(sep), z3.Length(Val.s(sep)) == 0)), V.is_list(xs))),
+                 ("unsupported", "join with a non-empty separator over a symbolic list"))]
+        return ex.apply_op(st, alts, "join")
     sx = z3.simplify(xs)
     n = z3.simplify(V.seq_len(sx))
     if z3.is_int_value(n) and n.as_long() <= 8:
@@ -473,6 +489,7 @@ def exact_keys(d, pairs):
 
 
 # translator callables: outcome in ghost state (like environment callables)
+T.declare_ghost("bean_attrs", z3.ArraySort(z3.IntSort(), z3.ArraySort(z3.StringSort(), Val)))   # attributes set on beans
 T.declare_ghost("checked_name", Val)       # the string last handed to the module-character filter (re.sub)
 T.declare_ghost("x_kind", z3.IntSort())
 T.declare_ghost("x_val", Val)
@@ -487,8 +504,11 @@ def xlate_call(ex, st, f, argv, kw, text, base=Exception):
     TABLE.ghost_append(st, "xlate_log", V.mk_tuple([f, argv, kw]))
     if ex.env.fn.qualname == "load":
         TABLE.ghost_append(st, "constructs", V.mk_tuple([V.S("call"), f, argv, kw]))
-    ret = V.fresh("xret")
     s_ok = st.copy()
+    if ex.env.fn.qualname == "load":
+        ret = s_ok.alloc()          # a class call returns a new instance
+    else:
+        ret = V.fresh("xret")
     s_ok.sig.append("xlate:%s:ret" % text)
     s_ok.ghost["x_kind"] = z3.IntVal(0)
     s_ok.ghost["x_val"] = ret
@@ -617,10 +637,21 @@ def _setattr_dyn(ex, st, args, text):
     T.used("setattr on a constructed bean", _setattr_dyn.__doc__.strip())
     st = st.copy()
     TABLE.ghost_append(st, "constructs", V.mk_tuple([V.S("setattr"), obj, name, value]))
+    ba = TABLE.ghost(st, "bean_attrs")
+    st_ok_attrs = z3.Store(ba, Val.ref(obj), z3.Store(z3.Select(ba, Val.ref(obj)), Val.s(name), value))
     s_ok = st.copy()
+    s_ok.ghost["bean_attrs"] = st_ok_attrs
     s_ex = st.copy()
     e = ex.env_exc(s_ex, Exception)
-    return [(s_ok, ("val", V.VNone)), (s_ex, ("raise", e))]
+    out = []
+    for s2, tag in ex.fork(s_ok, [(V.is_str(name), "ok"), (z3.Not(V.is_str(name)), "badname")], "setattr-name"):
+        if tag == "ok":
+            out.append((s2, ("val", V.VNone)))
+        else:
+            s3 = st.copy()
+            s3.assume(z3.Not(V.is_str(name)))
+            out.append((s3, ("raise", ex.make_exc(s3, TypeError))))      # attribute name must be string
+    return out + [(s_ex, ("raise", e))]
 
 
 TABLE.setattr_dyn = _setattr_dyn
@@ -794,3 +825,154 @@ def _tr_request(ex, st, args, kwargs, text):
     s_ex.ghost["transport_failed"] = z3.BoolVal(True)
     st.ghost["transport_failed"] = z3.BoolVal(False)
     return [(st, ("val", reply_of(n))), (s_ex, ("raise", e))]
+
+
+def _yield_point(ex, st, e):
+    """a `yield` of a @contextmanager generator: the with-block runs here; it either completes (the generator is
+    resumed normally) or raises (the exception is raised at the yield).  The header stack is assumed to be the same at
+    resumption as at suspension (nested blocks restore it: this very contract)."""
+    T.used("contextlib.contextmanager yield", _yield_point.__doc__.strip())
+    res = ex.eval(st, e.value) if e.value is not None else [(st, ("val", V.VNone))]
+    out = []
+    for s, oc in res:
+        if oc[0] == "raise":
+            out.append((s, oc))
+            continue
+        s_ok = s.copy()
+        s_ok.sig.append("yield:resumed")
+        out.append((s_ok, ("val", V.VNone)))
+        s_ex = s.copy()
+        s_ex.sig.append("yield:block-raised")
+        out.append((s_ex, ("raise", ex.env_exc(s_ex, BaseException))))
+    return out
+
+
+TABLE.yield_point = _yield_point
+
+
+def _noop_init(fields):
+    def h(ex, st, args, kwargs, text):
+        st = st.copy()
+        me = ex.lift(args[0])
+        for f, v in fields.items():
+            st.write(Val.ref(me), f, v() if callable(v) else v)
+        return [(st, ("val", V.VNone))]
+    return h
+
+
+_xml_init = _noop_init({"_connection": lambda: V.mk_tuple([V.VNone, V.VNone]), "_extra_headers": lambda: V.empty_list()})
+_xml_init.__doc__ = ("xmlrpc.client.Transport.__init__ / SafeTransport.__init__: sets the connection cache and the extra "
+                     "header list; touches nothing of the mix-in's state")
+TABLE.register("xmlrpc.client.Transport.__init__", _xml_init)
+TABLE.register("xmlrpc.client.SafeTransport.__init__", _xml_init)
+
+
+@TABLE.register("posixpath.abspath")
+def _abspath(ex, st, args, kwargs, text):
+    """os.path.abspath(p): an opaque str"""
+    r = V.fresh("abspath")
+    st = st.copy()
+    st.assume(V.is_str(r))
+    return [(st, ("val", r))]
+
+
+def _append_facts(old, x, new):
+    """unfolding of the list folds (all_bytes, all_str, bjoin_of) at an append: definitional axioms of those
+    specification functions, instantiated where a list grows"""
+    return [all_bytes(new) == z3.And(all_bytes(old), V.is_bytes(x)),
+            all_str(new) == z3.And(all_str(old), V.is_str(x)),
+            bjoin_of(new) == z3.Concat(bjoin_of(old), z3.If(V.is_bytes(x), Val.y(x), Val.s(x)))]
+
+
+TABLE.append_facts = _append_facts
+
+
+def fold_base_facts():
+    e = V.empty_list()
+    return [all_bytes(e), all_str(e), bjoin_of(e) == sv("")]
+
+
+import pyvc.vals as _V
+_orig_ground = _V.ground_facts
+
+
+def _ground_plus():
+    return _orig_ground() + fold_base_facts()
+
+
+_V.ground_facts = _ground_plus
+
+
+# ---------------------------------------------------------------------------------------------------------
+# HTTP request handler primitives (server side)
+T.declare_ghost("out", Val)                       # what the handler wrote: status line, headers, end-of-headers, body
+T.declare_ghost("in_body", z3.StringSort())       # the bytes the client sent as request body
+T.declare_ghost("in_pos", z3.IntSort())           # how many of them have been read
+
+HANDLER = "jsonrpclib.SimpleJSONRPCServer.SimpleJSONRPCRequestHandler"
+FIELDS.declare(HANDLER, "server", type="jsonrpclib.SimpleJSONRPCServer.SimpleJSONRPCServer")
+FIELDS.declare(HANDLER, "_dispatch", maybe_missing=True)
+FIELDS.declare(HANDLER, "headers")
+FIELDS.declare(HANDLER, "path")
+FIELDS.declare(HANDLER, "rfile", type="io.BufferedReader")
+FIELDS.declare(HANDLER, "wfile", type="io.BufferedWriter")
+
+
+def _out_call(name, doc):
+    def handler(ex, st, args, kwargs, text):
+        rest = [ex.lift(a) for a in args[1:]]
+        st = st.copy()
+        TABLE.ghost_append(st, "out", V.mk_tuple([V.S(name)] + rest))
+        return [(st, ("val", V.VNone))]
+    handler.__doc__ = doc
+    return handler
+
+
+for _key, _nm in (("http.server.BaseHTTPRequestHandler.send_response", "status"),
+                  ("http.server.BaseHTTPRequestHandler.send_header", "header"),
+                  ("http.server.BaseHTTPRequestHandler.end_headers", "end_headers"),
+                  ("xmlrpc.server.SimpleXMLRPCRequestHandler.report_404", "report_404"),
+                  ("_io.BufferedWriter.write", "write"), ("_io._BufferedIOBase.write", "write")):
+    TABLE.register(_key, _out_call(_nm, "response-writing primitive of http.server: appends (%r, arguments...) to ghost `out`; "
+                                        "assumed not to raise (a client that keeps its connection open)" % _nm))
+
+
+@TABLE.register("xmlrpc.server.SimpleXMLRPCRequestHandler.is_rpc_path_valid")
+def _is_rpc_path_valid(ex, st, args, kwargs, text):
+    """is_rpc_path_valid(): an opaque bool"""
+    return [(st, ("val", V.VBool(V.fresh("path_valid", z3.BoolSort()))))]
+
+
+def _rfile_read(ex, st, args, kwargs, text):
+    """rfile.read(n): the next m bytes of the request body with 1 <= m <= n, or b'' at end of input (short reads
+    allowed); advances ghost in_pos; may raise any exception"""
+    n = ex.lift(args[1])
+    st = st.copy()
+    body, pos = TABLE.ghost(st, "in_body"), TABLE.ghost(st, "in_pos")
+    m = V.fresh("nread", z3.IntSort())
+    st.assume(z3.And(pos >= 0, pos <= z3.Length(body)))
+    avail = z3.Length(body) - pos
+    st.assume(z3.And(m >= 0, m <= Val.i(n), m <= avail, z3.Implies(z3.And(avail > 0, Val.i(n) > 0), m >= 1)))
+    chunk = V.VBytes(z3.SubString(body, pos, m))
+    st.ghost["in_pos"] = pos + m
+    st.assume(z3.Length(z3.SubString(body, pos, m)) == m)
+    s_ex = st.copy()
+    s_ex.sig.append("read:raise")
+    e = ex.env_exc(s_ex, BaseException)
+    alts = [(z3.And(V.is_int(n), Val.i(n) >= 0), ("val", chunk)), (z3.Not(z3.And(V.is_int(n), Val.i(n) >= 0)), ("unsupported", "rfile.read(n) with a non-int or negative n"))]
+    return ex.apply_op(st, alts, "rfile.read") + [(s_ex, ("raise", e))]
+
+
+for _k in ("_io.BufferedReader.read", "_io._BufferedIOBase.read"):
+    TABLE.register(_k, _rfile_read)
+
+
+@TABLE.register("xmlrpc.server.SimpleXMLRPCRequestHandler.decode_request_content")
+def _decode_request_content(ex, st, args, kwargs, text):
+    """decode_request_content(data): the data itself (identity encoding; gzip decoding is left to the stdlib), or None
+    after having answered 501 for an unknown encoding"""
+    data = ex.lift(args[1])
+    s_none = st.copy()
+    TABLE.ghost_append(s_none, "out", V.mk_tuple([V.S("status"), V.I(501)]))
+    s_none.sig.append("decode:unknown-encoding")
+    return [(st, ("val", data)), (s_none, ("val", V.VNone))]
